@@ -65,6 +65,7 @@ pub fn drive(args: &[String]) {
         if rnd.chance(1, 2) {
             parts.push(0);
         }
+        let flushes = round % 3 == 2;
         let res = guarded(|| {
             let mut enc = Base64Encoder::new(Vec::new());
             let mut off = 0;
@@ -72,16 +73,20 @@ pub fn drive(args: &[String]) {
                 let w = enc.write(&data[off..off + k]).unwrap();
                 assert!(w == *k, "encoder accepted fewer bytes than offered");
                 off += k;
+                // every third round flushes after each write: flushing a writer never changes the stream it produces
+                if flushes {
+                    enc.flush().unwrap();
+                }
             }
             enc.finish().unwrap()
         });
         let text = match res {
             Ok(t) => {
-                out.rec(&json!({"id": id, "t": "enc", "data": data, "parts": parts, "out": t, "text": [], "reads": [], "dst": 0, "err": false, "panic": ""}));
+                out.rec(&json!({"id": id, "t": "enc", "data": data, "parts": parts, "flushes": flushes, "out": t, "text": [], "reads": [], "dst": 0, "err": false, "panic": ""}));
                 t
             }
             Err(m) => {
-                out.rec(&json!({"id": id, "t": "enc", "data": data, "parts": parts, "out": [], "text": [], "reads": [], "dst": 0, "err": false, "panic": m}));
+                out.rec(&json!({"id": id, "t": "enc", "data": data, "parts": parts, "flushes": flushes, "out": [], "text": [], "reads": [], "dst": 0, "err": false, "panic": m}));
                 Vec::new()
             }
         };
@@ -134,6 +139,9 @@ pub fn replay() {
                 for k in &parts {
                     enc.write(&data[off..off + k]).unwrap();
                     off += k;
+                    if v["flushes"].as_bool().unwrap_or(false) {
+                        enc.flush().unwrap();
+                    }
                 }
                 enc.finish().unwrap()
             });
